@@ -347,7 +347,59 @@ def oracle22(case, ans):
                                                                (" or, with the in-flight operation, %s" % json.dumps(state, sort_keys=True)) if inflight else ""))
     if ans.get("recover_result", 0) < 0:
         fails.append("recover() returned an error")
+    # what is persisted: without a crash the stored snapshots of the live tenants carry exactly the acknowledged pipelines and sources
+    if not inflight:
+        stored = {}
+        for key_t, id_t, name, key_owner, pipes in ans["store"]["snapshots"]:
+            stored[id_t] = {pid: num(src) for pid, pname, src, status in pipes}
+        for t, ps in state.items():
+            if stored.get(t) != ps:
+                fails.append("stored snapshot of %s holds %s, acknowledged %s" % (t, json.dumps(stored.get(t), sort_keys=True), json.dumps(ps, sort_keys=True)))
     return fails
+
+
+def reload_kinds22(case, ans):
+    """for the input distribution: how each acknowledged reload's source relates to the one deployed before it"""
+    state = {}
+    kinds = []
+    for o, s in zip(case["ops"], ans.get("steps", [])):
+        ack = 200 <= s["status"] < 300
+        if o[0] == "reload":
+            old = state.get(o[1], {}).get(o[2]) if ack else None
+            kinds.append(reload_kind(old, o[3]))
+        if ack and o[0] != "restart":
+            try:
+                state = abstract_apply(state, o)
+            except KeyError:
+                pass
+    return kinds
+
+
+N_SOURCES = 8
+SAME_STREAMS = (0, 1, 2, 3, 4)      # harness SOURCES 0-4 declare the same stream: reloading between them changes no stream
+
+
+def reload_kind(old, new):
+    """how the new source of a reload relates to the deployed one (harness/crates/store/src/tenants.rs SOURCES)"""
+    if old is None:
+        return "rejected"
+    if old == new:
+        return "byte-identical"
+    if old in SAME_STREAMS and new in SAME_STREAMS:
+        return {1: "comment/whitespace-only", 2: "function-body-only", 3: "event-declaration-only", 4: "constant-only"}.get(
+            new if new != 0 else old, "non-stream-only")
+    return "stream-changed"
+
+
+def pick_source(rng, current=None):
+    if current is not None:
+        k = rng.below(10)
+        if k == 0:
+            return current                                  # (a) byte-identical
+        if k < 7 and current in SAME_STREAMS:
+            return rng.choice([x for x in SAME_STREAMS if x != current])     # (b)/(c) streams untouched
+        return rng.choice([x for x in range(N_SOURCES) if x != current])    # anything else, mostly (d)
+    return rng.choice([0, 0, 0, 1, 2, 3, 4, 5, 6, 7])
 
 
 def gen_history22(rng, maxlen=8):
@@ -355,6 +407,7 @@ def gen_history22(rng, maxlen=8):
     created = []
     alive = set()
     pipes = {}          # pname -> tname (alive)
+    src = {}            # pname -> source index deployed (generator-side guess)
     next_p = 1
     n = rng.range(2, maxlen)
     while len(ops) < n:
@@ -364,23 +417,28 @@ def gen_history22(rng, maxlen=8):
             created.append(t)
             alive.add(t)
             ops.append(["create", t])
-        elif k < 45 and next_p <= 3 and created:
+        elif k < 40 and next_p <= 3 and created:
             t = rng.choice(sorted(alive)) if alive and rng.chance(9, 10) else rng.choice(created)
             p = "p%d" % next_p
             next_p += 1
-            ops.append(["deploy", t, p, rng.below(3)])
+            sx = pick_source(rng)
+            ops.append(["deploy", t, p, sx])
             if t in alive:
                 pipes[p] = t
-        elif k < 60 and next_p > 1:
+                src[p] = sx
+        elif k < 66 and next_p > 1:
             p = rng.choice(sorted(pipes)) if pipes and rng.chance(5, 6) else "p%d" % rng.range(1, next_p - 1)
             t = pipes.get(p) or rng.choice(created)
-            ops.append(["reload", t, p, rng.below(3)])
-        elif k < 72 and next_p > 1:
+            sx = pick_source(rng, src.get(p) if p in pipes else None)
+            ops.append(["reload", t, p, sx])
+            if p in pipes:
+                src[p] = sx
+        elif k < 74 and next_p > 1:
             p = rng.choice(sorted(pipes)) if pipes and rng.chance(5, 6) else "p%d" % rng.range(1, next_p - 1)
             t = pipes.get(p) or rng.choice(created)
             ops.append(["delpipe", t, p])
             pipes.pop(p, None)
-        elif k < 80 and created:
+        elif k < 81 and created:
             t = rng.choice(created)
             ops.append(["deltenant", t])
             alive.discard(t)
@@ -396,7 +454,13 @@ def gen_history22(rng, maxlen=8):
 
 
 CORPUS22 = [
-    [["create", "t1"], ["deploy", "t1", "p1", 0], ["create", "t2"], ["reload", "t1", "p1", 1], ["deploy", "t2", "p2", 2], ["delpipe", "t1", "p1"], ["deltenant", "t2"], ["restart"]],
-    [["create", "t1"], ["deltenant", "t1"], ["restart"], ["create", "t2"], ["deploy", "t2", "p1", 1], ["deploy", "t1", "p2", 0]],
-    [["create", "t1"], ["create", "t2"], ["deploy", "t1", "p1", 0], ["deploy", "t1", "p2", 1], ["deploy", "t2", "p3", 2], ["delpipe", "t1", "p1"], ["reload", "t2", "p3", 0], ["deltenant", "t1"]],
+    [["create", "t1"], ["deploy", "t1", "p1", 0], ["create", "t2"], ["reload", "t1", "p1", 6], ["deploy", "t2", "p2", 7], ["delpipe", "t1", "p1"], ["deltenant", "t2"], ["restart"]],
+    [["create", "t1"], ["deltenant", "t1"], ["restart"], ["create", "t2"], ["deploy", "t2", "p1", 6], ["deploy", "t1", "p2", 0]],
+    [["create", "t1"], ["create", "t2"], ["deploy", "t1", "p1", 0], ["deploy", "t1", "p2", 6], ["deploy", "t2", "p3", 7], ["delpipe", "t1", "p1"], ["reload", "t2", "p3", 0], ["deltenant", "t1"]],
+    # regression (seeded/C22-reload-keeps-old-source-when-report-empty): an acknowledged reload whose new source leaves every
+    # stream declaration as it is — function body only, comment only, byte-identical, then a stream change — must be what a
+    # restarted server holds
+    [["create", "t1"], ["create", "t2"], ["deploy", "t1", "p1", 0], ["deploy", "t2", "p2", 6], ["deploy", "t2", "p3", 7], ["reload", "t1", "p1", 2]],
+    [["create", "t1"], ["deploy", "t1", "p1", 0], ["reload", "t1", "p1", 1], ["restart"], ["reload", "t1", "p1", 1], ["reload", "t1", "p1", 3], ["reload", "t1", "p1", 4], ["reload", "t1", "p1", 5]],
+    [["create", "t1"], ["deploy", "t1", "p1", 2], ["reload", "t1", "p1", 0], ["restart"], ["deploy", "t1", "p2", 5], ["reload", "t1", "p2", 0]],
 ]
